@@ -14,6 +14,7 @@ CHECKS = {
  "C06": ("bounded symbolic execution of storage.SSD.lookup (InMemory embeds it), message.NewPrefix / ID.HasPrefix / ID.Match / ID.Time and Frame.Limit/Sort over a symbolic key-ordered store: stored contract, channel words, times and expiry symbolic (so 32-bit key-prefix collisions between contracts are found by the solver), query filter, window, limit and continuation id symbolic; natively replayed against the real in-memory badger", "3 C06"),
  "C07": ("bounded symbolic execution of pubsub.OnPublish, OnLastWill and OnSubscribe with the real Authorize/ParseChannel/Channel.TTL/Last/Window (strconv from SSA): permission mask, retain/will flags and option values symbolic (decimal digits, plus the values at the 2^31/2^32 boundaries), storage as a recording stub", "3 C07"),
  "C08": ("bounded symbolic execution of broker.Conn.Close (with its recover), Process/onReceive/onConnect on a scripted socket, pubsub.Unsubscribe/OnLastWill, Counters.All and the trie: histories of subscriptions with arbitrary ssid words plus a link auto-subscription, a watched last will with a symbolic permission mask, and a real encoded session stream cut at every byte offset, ended by DISCONNECT or corrupted in one byte", "3 C08"),
+ "C09": ("bounded symbolic execution with panic, allocation-size and termination obligations: broker.Conn.Process + Close on every client byte string up to the bound (real mqtt.DecodePacket, pubsub handlers, ParseChannel), Service.onPeerMessage on arbitrary decoded messages, message.readBytes and ID accessors on arbitrary bytes, event.decodeSubscription/decodeConnection on arbitrary keys, storage.SSD.lookup with arbitrary limits, survey.Surveyor.Send on arbitrary channels; every make with a symbolic size must stay within a stated bound", "3 C09"),
  "C11": ("bounded symbolic execution of keygen.OnRequest/CreateKey/ExtendKey (Request.access/expires), broker.Service.Authorize(AllowExtend), Key.SetTarget/ValidateChannel and the extend guards of pubsub.OnSubscribe/OnUnsubscribe/OnPublish and link.OnRequest: every presented key (all 24 bytes' fields, license, clock symbolic), type letters, ttl and channel letters", "3 C11"),
  "C12": ("bounded symbolic execution of the real v2 (XSalsa20) and v3 (salted Salsa20) key ciphers (keystream uninterpreted, HSalsa20 from source), decode path, contract.Validate and broker.Service.Authorize: every XOR mask on the 24 cipher bytes of an issued key with symbolic fields, symbolic probe channel and permission; Authorize(altered) must imply Authorize(issued). v1/XTEA is outside (computational)", "3 C12"),
  "C13": ("bounded symbolic execution of Volatile.Merge, Durable.Merge and State.Merge: local state and incoming payload symbolic per key (every order of add/remove times, ties, zeros, missing keys); payloads queued through the gossip sender's pending.Merge(new) rule", "3 C13"),
